@@ -412,3 +412,18 @@ package server
 //@   loop 1 invariant[C05] !writeAllowed(s.Handler) ==> fsw == old(fsw) @read-only
 //@   loop 1 invariant[C03] wn[conn] >= old(wn[conn]) && (forall k {wdata[conn][k]} :: k < old(wn[conn]) ==> wdata[conn][k] == old(wdata[conn][k])) @responses-only-appended
 //@   loop 1 invariant nctxclosed == old(nctxclosed) && iofaults >= old(iofaults) @not-closed-yet
+
+// Serve accepts connections and starts one goroutine per connection (go statement: outside the
+// verified subset). Its contract is ASSUMED; the ghost variables record what it was started with so
+// that the command's wiring can be checked.
+//@ ghost srvListener int log
+//@ ghost srvHandler int log
+//@ ghost srvTimeout int log
+//@ func Server.Serve results(err)
+//@   trusted
+//@   requires s != nil && s.Handler != nil && ln != nil
+//@   modifies srvListener, srvHandler, srvTimeout
+//@   update srvListener = ln
+//@   update srvHandler = s.Handler
+//@   update srvTimeout = s.ReadTimeout
+//@   ensures srvListener == ln && srvHandler == s.Handler && srvTimeout == s.ReadTimeout
